@@ -21,7 +21,8 @@ FILES = [
 REQUIRED_THEOREMS = ["C18_first_stop", "C18_never_self", "C18_needs_history", "C18_variance_refused",
                      "C18_unknown_criterion", "C18_deprecated_eq", "C18_degenerate_no_stop", "C18_tolerance_infinite",
                      "C18_first_stop_multi", "C18_stop_request_stands", "C18_stop_request_stands_dispatch",
-                     "C18_fit_keeps_monitoring", "C18_clear_history_monitors"]
+                     "C18_fit_keeps_monitoring", "C18_clear_history_monitors", "C18_gen_deviation_eq_model",
+                     "C18_gen_on_epoch_end_eq_model"]
 EXTRA_TRUSTED = [
     "C18: the monitored values are scripted functions of the epoch; float64 sub/div/abs/sqrt and `<` of Lean's Float are IEEE, "
     "as are Python's and numpy's, so decisions are compared exactly",
@@ -1235,8 +1236,18 @@ def deprecated_twin(ctx, case):
                sig="EarlyStopping/deprecated-twin", theorem="C18_deprecated_eq")
 
 
+def gen_tie(ctx):
+    """translator tie (notes/translator.md): the deviation formulas and `on_epoch_end` of `EarlyStopping` are re-translated from the
+    source of the checked tree into Lean and compared with the committed lean/QV/Gen/EarlyStopping.lean, which
+    `C18_gen_deviation_eq_model` / `C18_gen_on_epoch_end_eq_model` prove equal to the model's `deviation` / `onEpochEnd`; a textually
+    different translation is re-proved in a scratch copy of the lake project"""
+    from . import gentie
+    return gentie.tie(ctx, "EarlyStopping", "C18_gen_deviation_eq_model, C18_gen_on_epoch_end_eq_model")
+
+
 def run(ctx):
     ctx.rule = RULE
+    gen_tie(ctx)
     # the F8 witness, on every run
     one_case(ctx, f8_witness(), known_probe=True)
     if ctx.driver is not None:
